@@ -25,6 +25,7 @@ EXPLANATION = (
     "serialisability of accepted values."
     " Also decided (rules added after the fifth blind round): (R5.7) every value that can initialise a typed list's storage is the result of _convert or an empty literal (reaching definitions); (R5.8) the private attributes a validating property setter writes have no other writer in the package; (R5.9) generated constructor/decoder code never uses a generic field value as a truth value."
     " Rules added after the sixth blind round: (R5.10) no function of the field-type modules is memoised or fills a module-level container (a conversion cache is keyed by equality of the raw input)."
+    " Rules added after the seventh blind round: (R5.11) the cache of fieldtype() holds at least twice the whitelist, so an entry is not evicted while its class is in use; (R5.12) the attributes written by a validating setter are written together."
 )
 RULE_SUMMARY = "instances: store sites, paths to the slot store, guard intervals, (method, raise) pairs, returns; non-trivial = path or interval computed"
 
